@@ -98,6 +98,7 @@ def run(chk):
     chk.matchers[M_FIRST_ITER] = m_first_iter
     t0 = time.time()
     chk.prove("Props/C04.v", ["Props/C04.vo"], [])
+    sc.coqchk(chk, "HyV.Props.C04")
     phases = chk.extra.setdefault("phase_seconds", {})
     phases["proof"] = round(time.time() - t0, 1)
     thorough = chk.tier == "thorough"
@@ -106,13 +107,13 @@ def run(chk):
     # every sequence of clause kinds up to length 3 (4 in thorough) x with/without statement-producing subforms
     import itertools
     kinds4 = ["for", "if", "setv", "do"]
-    for n in range(0, 5 if thorough else 4):
+    for n in range(0, 6 if thorough else 4):
         for ks in itertools.product(kinds4, repeat=n):
             for stm in (False, True):
                 progs.append(("enum", g.program(kinds=list(ks), stm=stm)))
-    for i in range(12000 if thorough else 900):
+    for i in range(60000 if thorough else 900):
         progs.append(("gen", g.program()))
-    chk.rule = ("programs = every sequence of clause kinds {for,:if,:setv,:do} of length 0..3 (thorough: 0..4), each with and "
+    chk.rule = ("programs = every sequence of clause kinds {for,:if,:setv,:do} of length 0..3 (thorough: 0..5), each with and "
                 "without statement-producing subforms (random kind/scope/expressions), + seeded random programs: clause lists "
                 "of length 0..5 incl. :do (when c (break/continue)), finals incl. #* and #**, lfor/sfor/dfor/gfor/for with "
                 "else and break, in module / function / class scope, variables of the form clashing with outer variables, "
@@ -182,7 +183,7 @@ def run(chk):
         if r[0] == "no-claim":
             chk.count("filtered:" + r[1][:60])
     t2 = time.time()
-    cm.structure_correspondence(chk, [p for _, p in progs][: (6000 if thorough else 700)])
+    cm.structure_correspondence(chk, [p for _, p in progs][: (9000 if thorough else 700)])
     phases["structure correspondence"] = round(time.time() - t2, 1)
     chk.extra["programs"] = len(progs)
 
